@@ -789,6 +789,20 @@ fn suffix_events(tk: &str, t: NaiveDate) -> Vec<Transaction> {
     v
 }
 
+/// `growth` continuations (C12pad): the file simply grows by k lines dated more than 30 days after the prefix — k
+/// DIVIDEND lines of a security the prefix does not know, or k purchases of the prefix's first security — for a range
+/// of k, so that anything that depends on the *length* or position of the later part of the ledger (a search over the
+/// sorted list, a capacity, an index) is exercised, not only what depends on the kind of the appended event.
+fn growth_suffixes(prefix: &[Transaction], t_last: NaiveDate) -> Vec<Vec<Transaction>> {
+    let mut out = vec![];
+    let first_tk = tickers_of(prefix).into_iter().next().unwrap_or_else(|| "X".to_string());
+    for k in [1usize, 2, 3, 4, 5, 6, 8, 12] {
+        out.push((0..k).map(|i| alpha::dividend(t_last + Duration::days(31 + i as i64), "ZZ", "3", "1")).collect());
+        out.push((0..k).map(|i| alpha::buy(t_last + Duration::days(40 + 2 * i as i64), &first_tk, "7", &format!("{}", 30 + i), "1")).collect());
+    }
+    out
+}
+
 fn oracle_c12(env: &Env, prefix: &[Transaction], acc: &mut Acc, max_suffix: usize, trades_only: bool) -> Vec<Obs> {
     let mut res = vec![];
     if prefix.is_empty() {
@@ -824,10 +838,13 @@ fn oracle_c12(env: &Env, prefix: &[Transaction], acc: &mut Acc, max_suffix: usiz
             }
         }
     }
+    let suffixes: Vec<Vec<Transaction>> = if max_suffix == 0 { growth_suffixes(prefix, t_last) } else { seqs.iter().map(|s| sa.ledger(s)).collect() };
+    if max_suffix == 0 {
+        acc.bump("growth-continuations-run");
+    }
     // two layouts of the same extension: the later lines appended after the existing ones, or placed before them
     // (newest first, or the new year's file named first on the command line)
-    for (s, later_lines_first) in seqs.into_iter().flat_map(|s| [(s.clone(), false), (s, true)]) {
-        let suffix = sa.ledger(&s);
+    for (suffix, later_lines_first) in suffixes.into_iter().flat_map(|s| [(s.clone(), false), (s, true)]) {
         let full: Vec<Transaction> = if later_lines_first { suffix.iter().cloned().chain(prefix.iter().cloned()).collect() } else { prefix.iter().cloned().chain(suffix.iter().cloned()).collect() };
         acc.validated += 1;
         acc.bump("transitions");
@@ -975,6 +992,8 @@ pub fn oracle(prop: &str, env: &Env, txs: &[Transaction], acc: &mut Acc, tier: T
         "C12" => oracle_c12(env, txs, acc, if tier == Tier::Quick { 1 } else { 2 }, false),
         // two-line continuations (purchases and sales only) of prefixes that are also run in their other line orders
         "C12deep" => oracle_c12(env, txs, acc, 2, true),
+        // the file grows by 1..12 lines (max_suffix 0 selects the growth continuations), prefixes in every line order
+        "C12pad" => oracle_c12(env, txs, acc, 0, false),
         other => machinery_failure(&format!("ledger::oracle has no clause set for {other}")),
     }
 }
@@ -982,7 +1001,7 @@ pub fn oracle(prop: &str, env: &Env, txs: &[Transaction], acc: &mut Acc, tier: T
 fn visit(prop: &str, ctx: &Ctx, env: &Env, acc: &mut Acc, txs: &[Transaction], profile: &str) {
     // conservation / arithmetic laws hold in every line order: also run an order in which rows of one
     // (date, security, kind) are not adjacent (the canonical order keeps them adjacent, where the tool merges them)
-    if matches!(prop, "C01" | "C02" | "C03" | "C09" | "C11" | "C12deep") {
+    if matches!(prop, "C01" | "C02" | "C03" | "C09" | "C11" | "C12deep" | "C12pad") {
         for il in profiles::other_orders(txs) {
             acc.bump("interleaved-line-order-also-run");
             visit_one(prop, ctx, env, acc, &il, profile);
@@ -1004,7 +1023,7 @@ fn visit_one(prop: &str, ctx: &Ctx, env: &Env, acc: &mut Acc, txs: &[Transaction
             c["explored_state"] = json!(dsl_text(txs));
         }
         let input = Input::Ledger(o.input.unwrap_or_else(|| txs.to_vec()));
-        acc.violation(&ctx.findings, if prop == "C12deep" { "C12" } else { prop }, Violation { clause: o.clause, input, detail: o.detail, context: c });
+        acc.violation(&ctx.findings, if prop.starts_with("C12") { "C12" } else { prop }, Violation { clause: o.clause, input, detail: o.detail, context: c });
     }
 }
 
@@ -1233,6 +1252,11 @@ pub fn c12(tier: Tier) -> i32 {
     // prefixes in their other line orders (a SELL line written before the same day's BUY line) with every continuation
     // of up to two purchases/sales
     explore_alpha("C12deep", &mut ctx, &env, &profiles::match1(&["2"], true), n_m + 1, &mut acc);
+    // the file grows by 1..12 lines: two securities with several fills per day, every line order of the prefix
+    explore_alpha("C12pad", &mut ctx, &env, &profiles::two_sec_fills(), n_two + 1, &mut acc);
+    explore_alpha("C12pad", &mut ctx, &env, &profiles::two_sec(), n_two, &mut acc);
+    explore_alpha("C12pad", &mut ctx, &env, &profiles::match1(&["2"], true), n_m + 1, &mut acc);
+    ctx.require(acc.get("growth-continuations-run") > 0, "no growth continuation was run");
     // calendar positions: the prefix BUY(D-100), SELL(D) for every day D of 2015-2026; its extensions are dated D+31,
     // D+32, D+45 and on both sides of the next 5/6 April
     {
